@@ -50,6 +50,41 @@ EXAMPLES = {
 }
 
 
+# hand-written NON-default constructor arguments of every example (incl. the dict-valued `payoffs` and the activation
+# regimes of PdGrid, switched-off behaviours, other sizes): instances built with these run in the same process BEFORE the
+# measured default run - whatever a model leaves behind at class / module level would change the later run.
+# A dict with tuple keys is written {"__tuplekeys__": [[[k1, k2], v], ...]} (JSON).
+ALT_KWARGS = {
+    "BoidFlockers": [{"population_size": 7, "width": 20, "height": 15, "speed": 2, "vision": 5, "separation": 1, "cohere": 0.1,
+                      "separate": 0.05, "match": 0.2}],
+    "BoltzmannWealth": [{"n": 9, "width": 4, "height": 3}],
+    "ConwaysGameOfLife": [{"width": 5, "height": 6, "initial_fraction_alive": 0.6}],
+    "Schelling": [{"width": 6, "height": 5, "density": 0.5, "minority_pc": 0.3, "homophily": 0.7, "radius": 2}],
+    "VirusOnNetwork": [{"num_nodes": 8, "avg_node_degree": 2, "initial_outbreak_size": 3, "virus_spread_chance": 0.9,
+                        "virus_check_frequency": 0.1, "recovery_chance": 0.8, "gain_resistance_chance": 0.9}],
+    "EpsteinCivilViolence": [{"width": 8, "height": 7, "citizen_density": 0.5, "cop_density": 0.15, "citizen_vision": 2,
+                              "cop_vision": 4, "legitimacy": 0.3, "max_jail_term": 3, "active_threshold": 0.05,
+                              "arrest_prob_constant": 1.1, "movement": False, "max_iters": 50}],
+    "PdGrid": [{"width": 6, "height": 5, "activation_order": "Sequential",
+                "payoffs": {"__tuplekeys__": [[["C", "C"], 2.0], [["C", "D"], 0.0], [["D", "C"], 0.5], [["D", "D"], 0.1]]}},
+               {"width": 5, "height": 5, "activation_order": "Simultaneous",
+                "payoffs": {"__tuplekeys__": [[["C", "C"], 0.2], [["C", "D"], 3], [["D", "C"], 0], [["D", "D"], 1]]}}],
+    "SugarscapeG1mt": [{"initial_population": 15, "endowment_min": 10, "endowment_max": 20, "metabolism_min": 2,
+                        "metabolism_max": 3, "vision_min": 2, "vision_max": 3, "enable_trade": False}],
+    "WolfSheep": [{"width": 6, "height": 5, "initial_sheep": 10, "initial_wolves": 5, "sheep_reproduce": 0.2, "wolf_reproduce": 0.1,
+                   "wolf_gain_from_food": 8, "grass": True, "grass_regrowth_time": 4, "sheep_gain_from_food": 2}],
+}
+
+
+def _decode_kwargs(kw):
+    out = {}
+    for k, v in kw.items():
+        if isinstance(v, dict) and "__tuplekeys__" in v:
+            v = {tuple(a): b for a, b in v["__tuplekeys__"]}
+        out[k] = v
+    return out
+
+
 # =====================================================================================================
 #  worker side (runs inside a fresh interpreter; imports mesa lazily)
 # =====================================================================================================
@@ -128,6 +163,20 @@ def snapshot(model):
             continue
         m[k] = _canon(v)
     by_type = {t.__name__: [a.unique_id for a in s] for t, s in model.agents_by_type.items()}
+    # data kept at CLASS level by the model / agent classes (what one instance can leave behind for the next)
+    import mesa as _mesa
+
+    class_data = {}
+    for cls in [type(model)] + list(model.agents_by_type):
+        for c in cls.__mro__:
+            if c.__module__.startswith("mesa.") and not c.__module__.startswith("mesa.examples"):
+                continue
+            if c is object or c.__module__ in ("builtins", "typing", "abc", "collections.abc"):
+                continue
+            for k, v in vars(c).items():
+                if k.startswith("_") or callable(v) or isinstance(v, (property, classmethod, staticmethod)) or hasattr(v, "__get__"):
+                    continue
+                class_data[f"{c.__name__}.{k}"] = _canon(v)
     spaces = {}
     try:
         from mesa.discrete_space import DiscreteSpace
@@ -143,7 +192,7 @@ def snapshot(model):
                 spaces[k] = [sorted(map(repr, v.G.edges)), [[repr(n), _canon(v.G.nodes[n].get("agent"))] for n in v.G.nodes]]
     except Exception as e:  # noqa: BLE001
         spaces["error"] = type(e).__name__
-    snap = {"steps": model.steps, "agents": agents, "by_type": by_type, "model": m, "spaces": spaces,
+    snap = {"steps": model.steps, "agents": agents, "by_type": by_type, "model": m, "spaces": spaces, "class_data": class_data,
             "agent_types": [t.__name__ for t in model.agent_types],
             "random": _sha(model.random.getstate()), "rng": _sha(_canon(model.rng.bit_generator.state))}
     dc = getattr(model, "datacollector", None)
@@ -155,6 +204,8 @@ def snapshot(model):
 
 
 def _digest(snap):
+    # class-level data is diagnosis only (a class-level cache that never reaches the trajectory is not a violation)
+    snap = {k: v for k, v in snap.items() if k != "class_data"}
     return int(hashlib.sha1(json.dumps(snap, sort_keys=True, default=str).encode()).hexdigest()[:15], 16)
 
 
@@ -211,9 +262,9 @@ def _make_example(name, kwargs, seed):
         from mesa.experimental.devs import ABMSimulator
 
         sim = ABMSimulator()
-        model = klass(seed=seed, simulator=sim, **kwargs)
+        model = klass(seed=seed, simulator=sim, **_decode_kwargs(kwargs))
         return model, (lambda: sim.run_for(1))
-    model = klass(seed=seed, **kwargs)
+    model = klass(seed=seed, **_decode_kwargs(kwargs))
     return model, model.step
 
 
@@ -496,6 +547,132 @@ def run_script_job(job, detail_step=None):
     return {"digests": digests, "global_changed_at": changed, "gens": sorted(set(bad)), "detail": snaps, "unseeded_warnings": warned}
 
 
+def _reset_through_collections(form, s):
+    """re-seeding must replay the run THROUGH every collection Mesa derived for the model, before or after the reset:
+    a fixed sequence of stochastic decisions (none of which changes the model) is drawn, the generators are reset (no
+    argument / the seed they started from), and the same sequence has to come out, from collections that still carry
+    model.random."""
+    import copy
+    import warnings
+
+    import mesa
+    from mesa.discrete_space import CellAgent, OrthogonalMooreGrid
+
+    class RW(CellAgent):
+        def __init__(self, model, cell):
+            super().__init__(model)
+            self.cell = cell
+
+    class RV(RW):
+        pass
+
+    class World(mesa.Model):
+        def __init__(self, **kw):
+            super().__init__(**kw)
+            self.grid = OrthogonalMooreGrid((4, 4), torus=True, random=self.random)
+            cs = list(self.grid.all_cells)
+            self.made = RW.create_agents(self, 5, [cs[i] for i in (0, 5, 5, 10, 15)])
+            RV.create_agents(self, 3, [cs[i] for i in (1, 2, 7)])
+
+    def held_of(m):
+        cs = list(m.grid.all_cells)
+        st = m.random.getstate()
+        try:
+            return _held_of(m, cs)
+        finally:
+            m.random.setstate(st)   # deriving the held collections must not count as draws of the run
+
+    def _held_of(m, cs):
+        return {"create_agents set": m.made, "agents.select": m.agents.select(lambda a: a.unique_id != 2), "copy(agents)": copy.copy(m.agents),
+                "agents.shuffle()": m.agents.shuffle(), "groupby": m.agents.groupby(lambda a: a.unique_id % 2).groups[1],
+                "grid.agents": m.grid.agents, "all_cells": m.grid.all_cells, "empties": m.grid.empties,
+                "cell.neighborhood": cs[5].neighborhood, "cell.get_neighborhood(2)": cs[0].get_neighborhood(2, True),
+                "all_cells.select": m.grid.all_cells.select(lambda c: c.coordinate[0] > 0)}
+
+    def ids(x):
+        return [a.unique_id for a in x]
+
+    def draws(m, held, with_rng):
+        out = []
+        out.append(("model.agents.shuffle", ids(m.agents.shuffle())))
+        order = []
+        m.agents.shuffle_do(lambda a: order.append(a.unique_id))
+        out.append(("model.agents.shuffle_do", order))
+        out.append(("agents_by_type[RW].shuffle", ids(m.agents_by_type[RW].shuffle())))
+        order = []
+        m.agents_by_type[RV].shuffle_do(lambda a: order.append(a.unique_id))
+        out.append(("agents_by_type[RV].shuffle_do", order))
+        out.append(("agents.select(at_most=0.5 after shuffle)", ids(m.agents.shuffle().select(at_most=0.5))))
+        for name, c in held.items():
+            if hasattr(c, "shuffle"):
+                out.append((f"{name} (derived before the reset) .shuffle", ids(c.shuffle())))
+            else:
+                out.append((f"{name} (derived before the reset) .select_random_cell", list(c.select_random_cell().coordinate)))
+                if any(True for _ in c.agents):
+                    out.append((f"{name} (derived before the reset) .select_random_agent", c.select_random_agent().unique_id))
+        m.grid._try_random = True
+        out.append(("grid.select_random_empty_cell (try random)", list(m.grid.select_random_empty_cell().coordinate)))
+        m.grid._try_random = False
+        out.append(("grid.select_random_empty_cell (list)", list(m.grid.select_random_empty_cell().coordinate)))
+        out.append(("grid.all_cells.select_random_cell", list(m.grid.all_cells.select_random_cell().coordinate)))
+        out.append(("grid.empties.select_random_cell", list(m.grid.empties.select_random_cell().coordinate)))
+        out.append(("cell.neighborhood.select_random_agent", list(m.grid.all_cells)[6].neighborhood.select_random_agent().unique_id))
+        out.append(("grid.agents.shuffle", ids(m.grid.agents.shuffle())))
+        a = m.agents[3]
+        out.append(("agent.random.random", repr(a.random.random())))
+        if with_rng:
+            out.append(("agent.rng.integers", [int(x) for x in a.rng.integers(0, 10**6, size=4)]))
+        return out
+
+    def identity(m, held):
+        st = m.random.getstate()
+        try:
+            return _identity(m, held)
+        finally:
+            m.random.setstate(st)
+
+    def _identity(m, held):
+        objs = dict(held)
+        objs.update({"model.agents": m.agents, "agents_by_type[RW]": m.agents_by_type[RW], "agents_by_type[RV]": m.agents_by_type[RV],
+                     "grid": m.grid, "grid[cell]": list(m.grid.all_cells)[3], "model.agents.shuffle() (derived now)": m.agents.shuffle(),
+                     "grid.empties (derived now)": m.grid.empties})
+        bad = [k for k, o in objs.items() if o.random is not m.random]
+        if m.agents[0].random is not m.random:
+            bad.append("agent.random")
+        if m.agents[0].rng is not m.rng:
+            bad.append("agent.rng")
+        return sorted(bad)
+
+    def first_diff(a, b):
+        return next((f"{x[0]}: {x[1]} then {y[1]}" for x, y in zip(a, b) if x != y), None)
+
+    with_rng = form in ("seed", "rng-int")
+    out = {}
+    with warnings.catch_warnings():
+        warnings.simplefilter("ignore")
+        m = World(**_seed_kwargs(form, s))
+        held = held_of(m)
+        out["identity_before"] = identity(m, held)
+        d1 = draws(m, held, with_rng)
+        m.reset_randomizer()
+        if with_rng:
+            m.reset_rng(s)
+        out["identity_after_default"] = identity(m, held)
+        d2 = draws(m, held, with_rng)
+        out["diff_default"] = first_diff(d1, d2)
+        m.reset_randomizer(m._seed)
+        if with_rng:
+            m.reset_rng(s)
+        out["identity_after_explicit"] = identity(m, held)
+        d3 = draws(m, held, with_rng)
+        out["diff_explicit"] = first_diff(d1, d3)
+        m2 = World(**_seed_kwargs(form, s))
+        d4 = draws(m2, held_of(m2), with_rng)
+        out["diff_fresh"] = first_diff(d1, d4)
+        out["through"] = _sha(d1)
+    return out
+
+
 def run_reset_job(job):
     """reset_randomizer(seed0) / reset_rng(seed0) replay the first n draws; model built with each seed form"""
     import numpy as np
@@ -532,6 +709,7 @@ def run_reset_job(job):
     f2 = [m2.random.random() for _ in range(n)] + [m2.random.randrange(1000) for _ in range(n)]
     out["same_seed_same_stream"] = f2 == first and [int(x) for x in m2.rng.integers(0, 10**9, size=n)] == firstnp
     out["stream"] = _sha([first, firstnp])
+    out["coll"] = _reset_through_collections(form, s)
     return out
 
 
@@ -586,7 +764,10 @@ def worker_main():
         try:
             # priors: in-process histories run before the measured job
             for p in item.get("priors", []):
-                run_job(p)
+                try:
+                    run_job(p)
+                except Exception:  # noqa: BLE001  a prior history that fails is still a prior history
+                    pass
             r = run_job(item["job"], item.get("detail_step"))
             out.append({"ok": True, "res": r})
         except Exception as e:  # noqa: BLE001
@@ -628,9 +809,19 @@ def _job_name(job):
 
 
 def _diff_snap(a, b):
-    """first difference between two snapshots, in words"""
+    """first difference between two snapshots, in words (+ what differs at class level, as a hint at the cause)"""
     if a is None or b is None:
         return "no detail available"
+    hint = ""
+    ca, cb = a.get("class_data", {}), b.get("class_data", {})
+    for k in sorted(set(ca) | set(cb)):
+        if ca.get(k) != cb.get(k):
+            hint = f"; class-level data differs too: {k} = {json.dumps(ca.get(k))[:160]} vs {json.dumps(cb.get(k))[:160]}"
+            break
+    return _diff_snap0({k: v for k, v in a.items() if k != "class_data"}, {k: v for k, v in b.items() if k != "class_data"}) + hint
+
+
+def _diff_snap0(a, b):
     if a.get("steps") != b.get("steps"):
         return f"model.steps {a.get('steps')} vs {b.get('steps')}"
     ia = [(x["class"], x["id"]) for x in a["agents"]]
@@ -654,8 +845,10 @@ def _prior_for(job, j):
     """an in-process history to run before the second measurement of `job`"""
     if job["kind"] == "example":
         other = sorted(EXAMPLES)[(sorted(EXAMPLES).index(job["model"]) + 1 + j) % len(EXAMPLES)]
-        return [dict(job, seed=job["seed"] + 1, steps=2),
-                {"kind": "example", "model": other, "kwargs": EXAMPLES[other][2], "seed": job["seed"], "steps": 2}]
+        alts = [{"kind": "example", "model": job["model"], "kwargs": kw, "seed": job["seed"] + 2 + n, "steps": 2}
+                for n, kw in enumerate(ALT_KWARGS.get(job["model"], []))]
+        return alts + [dict(job, seed=job["seed"] + 1, steps=2),
+                       {"kind": "example", "model": other, "kwargs": EXAMPLES[other][2], "seed": job["seed"], "steps": 2}]
     if job["kind"] == "script":
         sp = dict(job["spec"], seed=job["spec"]["seed"] + 1)
         return [{"kind": "script", "spec": sp}]
@@ -685,9 +878,13 @@ def run_env_case(case):
             continue
         for pos, (it, r) in enumerate(zip(items, res)):
             i = it["idx"]
-            envd = f"PYTHONHASHSEED={h}, " + ("fresh interpreter" if pos == 0 else
-                                              ("after other models ran in the same process" if "priors" in it or pos > 0 else ""))
+            envd = f"PYTHONHASHSEED={h}, " + (
+                "fresh interpreter" if pos == 0 else
+                "after instances of the same class with non-default constructor arguments and other models ran in the same process"
+                if "priors" in it else "after other models ran in the same process")
             runs[i].append((envd, r, h, it))
+    for i in runs:   # the reference is the run in a fresh interpreter when there is one
+        runs[i].sort(key=lambda x: 0 if "fresh interpreter" in x[0] else 1)
     for i, job in enumerate(jobs):
         name = _job_name(job)
         rs = runs[i]
@@ -745,6 +942,28 @@ def run_env_case(case):
                                  "what": f"Model({form}={job['seed']}): model.random was seeded with {job['seed']} but model._seed is "
                                          f"{'None' if rr['seed0_is_none'] else 'something else'}; reset_randomizer() "
                                          "('reset using the current seed') re-seeds from OS entropy and the stream is not replayed"})
+            cl = rr.get("coll") or {}
+            if any(r["res"].get("coll", {}).get("through") != cl.get("through") for _, r, _, _ in rs):
+                failures.append({"key": f"C01/Model/same-seed-different-draws-through-collections/{form}", "op": i,
+                                 "what": f"two interpreters draw different sequences through the collections of the same seeded model ({form}={job['seed']})"})
+            if cl.get("identity_before"):
+                failures.append({"key": "C01/Model/collections-without-model-generator", "op": i,
+                                 "what": f"Model({form}={job['seed']}) with a grid built with random=model.random: these do not carry model.random: {cl['identity_before']}"})
+            for which in ("default", "explicit"):
+                call = "reset_randomizer()" if which == "default" else "reset_randomizer(model._seed)"
+                bad = [x for x in cl.get(f"identity_after_{which}", []) if x not in cl.get("identity_before", [])]
+                if bad:
+                    failures.append({"key": "C01/Model.reset_randomizer/collections-keep-old-generator", "op": i,
+                                     "what": f"Model({form}={job['seed']}): after {call} these collections / objects no longer carry "
+                                             f"model.random (they keep the generator that was not re-seeded): {bad}"})
+                if cl.get(f"diff_{which}"):
+                    failures.append({"key": "C01/Model.reset_randomizer/draws-through-collections-do-not-replay", "op": i,
+                                     "what": f"Model({form}={job['seed']}): the same sequence of stochastic decisions drawn before and after "
+                                             f"{call}" + (f" + reset_rng({job['seed']})" if form in ("seed", "rng-int") else "")
+                                             + f" differs, first at {cl[f'diff_{which}']}"})
+            if cl.get("diff_fresh"):
+                failures.append({"key": f"C01/Model/same-seed-different-draws-through-collections/{form}", "op": i,
+                                 "what": f"a second model with {form}={job['seed']} draws differently through its collections: {cl['diff_fresh']}"})
             if rr["rng_explicit"] is False and form in ("seed", "rng-int"):
                 failures.append({"key": f"C01/Model.reset_rng/explicit-seed-does-not-replay/{form}", "op": i,
                                  "what": f"Model({form}={job['seed']}): reset_rng({job['seed']}) does not replay the first {job['n']} draws of model.rng"})
@@ -1111,6 +1330,32 @@ def run_world_case(case):
                         lg.remove_agent(a)
                         lg.place_agent(a, dest)
                         rnd.setstate(st_after)
+            elif k == "reset":
+                explicit = bool(op[1]) if len(op) > 1 else False
+                pre = {"model.agents": model.agents, "space": space, "space.all_cells": space.all_cells, "space[cell 0]": cells[0],
+                       "cell.neighborhood": cells[0].neighborhood, "space.empties": space.empties}
+                for t_, s_ in model.agents_by_type.items():
+                    pre[f"model.agents_by_type[{t_.__name__}]"] = s_
+                if len(model.agents):
+                    pre["model.agents.select(...)"] = model.agents.select(lambda a: True, at_most=3)
+                carried = [n for n, o in pre.items() if o.random is model.random]
+                model.reset_randomizer(*([case["seed"]] if explicit else []))
+                call = f"reset_randomizer({case['seed'] if explicit else ''})"
+                if model.random is not rnd:   # the generator object was replaced: keep observing the model's current one
+                    rnd = model.random
+                    if type(rnd) is _random.Random:
+                        rnd.__class__ = RecRandom
+                    rnd.__dict__.setdefault("log", [])
+                lost = [n for n in carried if pre[n].random is not model.random]
+                if lost:
+                    fail("C01/Model.reset_randomizer/collections-keep-old-generator", i,
+                         f"after model.{call} these collections, derived before the reset, no longer carry model.random "
+                         f"(they keep the generator that was not re-seeded): {lost}")
+                if model.random.getstate() != _random.Random(case["seed"]).getstate():
+                    fail("C01/Model.reset_randomizer/stream-not-restarted", i,
+                         f"after model.{call} model.random is not in the state of random.Random({case['seed']})")
+                obs.append([gflag(model.agents), gflag(space)])
+                ops_m.append("Reset")
             elif k == "shuffle_do":
                 try:
                     c, m, sd = ev(op[1], i)
@@ -1389,7 +1634,9 @@ def _gen_world(rng, big=False):
     placed = [x[0] for x in lplace]
     for _ in range(rng.randint(3, 12)):
         r = rng.random()
-        if r < 0.08:
+        if r < 0.03:
+            case["ops"].append(["reset", rng.random() < 0.5])
+        elif r < 0.08:
             case["ops"].append(["shuffle_do", _gen_term(rng, rng.randint(0, 3))])
         elif r < 0.14:
             cand = [(x, y) for x in range(lw) for y in range(lh)]
@@ -1526,7 +1773,9 @@ def enumerate_cases(tier, broken=False):
                 yield {"kind": "world", "seed": 5, "agents": [[0, 1], [1, 1], [0, 2], [1, 3], [0, 1]], "space_seeded": seeded,
                        "cw": 2, "ch": 2, "ctorus": False, "moore": True, "cell_of": [[1, 0], [2, 0], [3, 3]], "lw": 2, "lh": 2,
                        "lplace": [[1, 0, 0], [4, 1, 1]] if occupied else [], "salt": 3, "ops": ops[s:s + 60] + [["create", 1, [2, 2]], ["sre"], ["tre"], ["rcell", ["cempties"]], ["ragent", ["call"]],
-                                                   ["shuffle_do", ["agents"]], ["shuffle_do", ["space_agents"]], ["rcell", ["cnew", ["call"], False]]]}
+                                                   ["shuffle_do", ["agents"]], ["shuffle_do", ["space_agents"]], ["rcell", ["cnew", ["call"], False]],
+                                                   ["reset", False], ["derive", ["shuffle", ["agents"]]], ["derive", ["bytype", 1]], ["derivec", ["cempties"]],
+                                                   ["shuffle_do", ["space_agents"]], ["rcell", ["cnbhd", 0, True]], ["reset", True], ["sre"], ["tre"]]}
     lim = 3
     for lw in range(1, lim + 1):
         for lh in range(1, lim + 1):
@@ -1546,7 +1795,7 @@ RULE = ("world histories = one mesa.Model(seed) with <= 7 agents of two classes,
         "model.random, a legacy SingleGrid (1..3 x 1..3, every 8th 6..7 x 6..7 so that the rejection branch of move_to_empty "
         "runs) whose _empties set iterates in a salted random order, and 3-12 operations: derivation terms of depth <= 4 over "
         "select/shuffle/sort/groupby/copy/AgentSet()/space.agents/grid.agents, cell-collection terms, create_agents, remove, "
-        "place, remove_agent, move_to_empty, move_agent_to_one_of (random / closest), shuffle_do, select_random_cell / _agent on "
+        "place, remove_agent, move_to_empty, move_agent_to_one_of (random / closest), reset_randomizer (with / without seed), shuffle_do, select_random_cell / _agent on "
         "derived cell collections, select_random_empty_cell (both strategies); env histories = each bundled example and batches of random "
         "API scripts run in fresh interpreters under several PYTHONHASHSEED values, fresh and after other models ran in the "
         "process, reset_randomizer/reset_rng replays for five seed forms, batch_run with 1/2(/3) spawn workers; "
